@@ -449,6 +449,7 @@ def handleC15 (j : Json) : Except String Verdict := do
   | "program" => C15.handleProgram j
   | "chunked" => C15.handleProgram j
   | "assign" => C15.handleProgram j
+  | "ref" => C15.handleProgram j
   | k => throw s!"C15: unknown kind {k}"
 
 end FtDriver
